@@ -67,6 +67,10 @@ def match_known(known, prop, rec):
     return None
 
 
+CROSSCHECK = {"C02": "calculate_steps", "C17": "calculate_steps", "C20": "image.py", "C16": "apply_simple_adc", "C14": "pixel_center_pos", "C05": "_get_short_dimension_names_new",
+              "C15": "persistence.py|full_well|ipc_kernel|apply_qe", "C08": "eval_entry", "C11": "list_to_slice"}
+
+
 def replay(prop, rec, idx):
     """Run the scenario of a refuted obligation on the real code under /venv/bin/python."""
     rdir = HERE / "replays" / prop
@@ -133,9 +137,25 @@ def main():
             results = pool.map(_worker, jobs, chunksize=1)
     # thorough-tier extras (bounded audits etc.) are hooks of the contract module
     extra = {}
+    crosscheck_failed = False
+    if tier == "thorough" and prop in CROSSCHECK:
+        # bounded audit of the ENCODING (never counted as proved): the functions of this property that take plain values are run
+        # on random concrete inputs by the engine and by CPython; results must agree (tools/crosscheck.py)
+        try:
+            r = subprocess.run(["python3-vt", str(HERE / "tools" / "crosscheck.py"), "--n", "20", "--seed", str(seed), "--only", CROSSCHECK[prop], "--json"],
+                               capture_output=True, text=True, timeout=1800, env={**os.environ, "PYVC_REPO": repo_root()})
+            js = [l for l in r.stdout.splitlines() if l.startswith("JSON ")]
+            info = json.loads(js[-1][5:]) if js else {"error": (r.stdout + r.stderr)[-400:]}
+        except Exception as e:
+            info = {"error": repr(e)}
+        extra = {"bounded": [{"kind": "CPython cross-check of the encoding on random concrete inputs (bounded; not a proof)", "bound": "20 inputs per function", **info}]}
+        if info.get("disagreements"):
+            print(f"CHECKER-CRASH property={prop} engine and CPython disagree on concrete inputs: {info}")
+            crosscheck_failed = True
     if hasattr(mod, "extras"):
         try:
-            extra = mod.extras(tier, seed, repo_root()) or {}
+            more = mod.extras(tier, seed, repo_root()) or {}
+            extra = {**more, "bounded": list(extra.get("bounded", [])) + list(more.get("bounded", []))}
         except Exception as e:
             extra = {"extras_error": repr(e)}
 
@@ -212,6 +232,8 @@ def main():
             exit_code = 3
     if not recs and not crashes:
         print(f"CHECKER-CRASH property={prop} zero obligations generated")
+        exit_code = 3
+    if crosscheck_failed and exit_code == 0:
         exit_code = 3
     if isinstance(extra, dict) and extra.get("violations"):
         for v in extra["violations"]:
